@@ -328,7 +328,20 @@ def frame_oracle(ctx, c, runs):
         elif conformant and ev != wev:
             bad = 'full'
         elif not conformant and ev != wev:
-            past += 1
+            # whole delivery went on past a loseConnection.  The recorded finding
+            # is exactly: first stop is a Close and the chunked trace is whole
+            # delivery truncated behind a Close; anything else is another defect
+            first = [e for e in wev if e in ([1], [2])][0]
+            if first == [1] and [1] in ev and wev[:len(ev)] == ev:
+                past += 1
+                ctx.violation('db-coalesced-past-close', {'chan': c.chan},
+                              'channel %s stream %s: whole delivery %s, chunks %s stop at %s'
+                              % (c.chan, c.label, wev, lens, ev),
+                              {'source': 'oracle', 'theorem': 'C14_db_pipelined_refuted', 'alias': ALIAS,
+                               'case': dict(c.payload(), chunkings=[lens, [len(c.stream)]]),
+                               'expected': wev, 'observed': ev})
+            else:
+                bad = 'after-stop'
         if bad:
             ctx.violation('chunking', {'chan': c.chan, 'level': bad},
                           'channel %s stream %s: chunks %s deliver %s, whole delivery %s'
@@ -356,6 +369,12 @@ def run_framing(ctx, real):
         hist[c.chan + ':' + c.label.split('-')[0]] = hist.get(c.chan + ':' + c.label.split('-')[0], 0) + len(runs)
     ctx.note('framing_runs_by_kind', hist)
     ctx.note('db_chunkings_where_coalescing_delivers_past_a_close', past_close)
+    ctx.expect_known('db-coalesced-past-close', past_close > 0)
+    if past_close == 0 and ctx.nviol == 0:
+        ctx.broken('open finding db-coalesced-past-close no longer reproduces',
+                   'no chunking of the db stream "closing-then-more" stops short of whole delivery: '
+                   'model (C14_db_pipelined_refuted) and code have diverged',
+                   {'source': 'correspondence', 'theorem': 'C14_db_pipelined_refuted'})
     model = model_frames(ctx, cases)
     nev = 0
     keys = []
@@ -590,6 +609,17 @@ def hs_oracle(ctx, c, runs, chal):
             bad = 'prefix'
         elif conformant and ev != exp:
             bad = 'full'
+        elif ev != exp:
+            first = [e for e in exp if e in ([1], [2])][0]
+            if first == [1] and [1] in ev and exp[:len(ev)] == ev:
+                ctx.violation('db-coalesced-past-close', {'chan': c.chan},
+                              '%s/%s: whole delivery %s, chunks %s stop at %s'
+                              % (c.chan, c.label, exp, lens, ev),
+                              dict(rep, theorem='C14_db_pipelined_refuted',
+                                   case=dict(c.payload(), chunkings=[lens, [len(c.stream)]]),
+                                   expected=exp, observed=ev))
+            else:
+                bad = 'after-stop'
         if bad:
             ctx.violation('handshake-outcome', {'chan': c.chan, 'level': bad, 'pass': fail is None},
                           '%s/%s chunks %s: trace %s, expected %s' % (c.chan, c.label, lens, ev, exp),
@@ -671,6 +701,10 @@ def replay(ctx):
     if rp.get('kind') in ('chunking', 'handshake-outcome') and len(traces) > 1:
         if any(cut_trace(t) != cut_trace(traces[-1]) for t in traces):
             ctx.violation(rp['kind'], rp.get('fields', {}), 'replay: the chunkings still disagree', dict(rp))
+    elif rp.get('kind') == 'db-coalesced-past-close' and len(traces) > 1:
+        if any(t != traces[-1] for t in traces):
+            ctx.violation(rp['kind'], rp.get('fields', {}),
+                          'replay: coalesced delivery still goes past the close', dict(rp))
     elif 'observed' in rp and rp.get('source') == 'oracle':
         print('[C14] recorded observation: %s' % (rp['observed'],), flush=True)
 
